@@ -819,4 +819,90 @@ Section Striping.
     intros g a tr _ _. eapply Conc.safe_weaken; [|apply safe_run_ops; auto]. intros; exact I.
   Qed.
 
+
+  (** ** the initial configuration *)
+  Definition a0 : Aux := mkAux (fun _ => mkTV Lin.Idle LNone 0 (fun _ => [])) [].
+
+  Lemma nth_error_mapi {A B} (f : nat -> A -> B) : forall l i t, nth_error (mapi f i l) t = option_map (f (i + t)) (nth_error l t).
+  Proof.
+    induction l as [|x r IH]; intros i [|t]; cbn; auto.
+    - now rewrite Nat.add_0_r.
+    - rewrite IH. now rewrite Nat.add_succ_r.
+  Qed.
+
+  Lemma init_ok ths : Conc.cfg_ok view Inv (init_cfg cf ths).
+  Proof.
+    exists a0. split.
+    - cbn [init_cfg Conc.shared Conc.trace]. constructor.
+      + intros i Hl. cbn. split; [discriminate|]. intros (t & []).
+      + intros t t' i [].
+      + intros i t. cbn. split; [discriminate|intros []].
+      + intros t i [].
+      + intros t b [].
+      + cbn [init mask buckets]. apply alloc_table_ok. exact Hnl.
+      + cbn [init mask]. exists 1. split; [lia|]. lia.
+      + exists [], (fun _ => Lin.Idle). cbn. split; [reflexivity|]. split; [reflexivity|]. split; [reflexivity|].
+        split; [constructor|]. intros x. split; [intros []|]. intros [(b & H)|(t & [])].
+        rewrite get_b_repeat in H. destruct H.
+    - intros t p Hp. cbn [init_cfg Conc.threads] in Hp. rewrite nth_error_mapi in Hp.
+      destruct (nth_error ths t) as [os|]; inversion Hp; subst. cbn [Nat.add].
+      apply safe_thread; [reflexivity|]. split; [intros j []|reflexivity].
+  Qed.
+
+  (** ** theorems *)
+
+  (** every concurrent history of the model is linearizable to the sequential set of items *)
+  Theorem striped_striping_linearizable ths (c : Conc.config G V ev) :
+    Conc.reach (init_cfg cf ths) c -> linearizable ISet (hist_of (Conc.trace c)).
+  Proof.
+    intros Hr. destruct (Conc.reach_Inv (init_ok ths) Hr) as (a & Hi).
+    destruct (i_abs Hi) as (s & st & H1 & H2 & _). rewrite <- H2. apply lp_valid_linearizable. eexists; eauto.
+  Qed.
+
+  (** a step: invariant before and after, related by the frame condition *)
+  Lemma step_frame (c : Conc.config G V ev) t c' : Conc.cfg_ok view Inv c -> Conc.step_cfg c t = Some c' ->
+    exists a a', Inv (Conc.shared c) a (Conc.trace c) /\ Inv (Conc.shared c') a' (Conc.trace c') /\ Conc.frame view t a a'.
+  Proof.
+    intros (a & Hi & Hts) Hs. unfold Conc.step_cfg in Hs.
+    destruct (nth_error (Conc.threads c) t) as [p|] eqn:Hp; [|discriminate].
+    unfold Conc.step_thread in Hs. destruct p as [r|es k|f k]; try discriminate.
+    pose proof (Hts t _ Hp) as Hsafe. cbn [Conc.safe] in Hsafe.
+    destruct (Hsafe _ _ _ Hi eq_refl) as (a1 & H1 & H2 & H3).
+    destruct (f (Conc.shared c)) as [[g' v] es] eqn:Hf. cbn [fst snd] in *.
+    destruct (Conc.settle_safe (view := view) (Inv := Inv) t (k v) H1 H3) as (a2 & K1 & K2 & K3).
+    destruct (Conc.settle (k v)) as [es' p'] eqn:Hk. cbn [fst snd] in *.
+    inversion Hs; subst c'; clear Hs. exists a, a2. cbn [Conc.shared Conc.trace]. split; [exact Hi|]. split.
+    - rewrite Conc.tag_app, app_assoc. exact K1.
+    - intros t' Ht. rewrite (K2 t' Ht). apply H2; exact Ht.
+  Qed.
+
+  (** lock striping: the stripe of a bucket of the current table is the stripe of the hash, the holder of a cell
+      lock (read off the trace) really has the lock word set, and no step of another thread changes the mask or
+      any bucket of that stripe *)
+  Theorem striping_cell_lock_stable_thm ths (c : Conc.config G V ev) :
+    Conc.reach (init_cfg cf ths) c ->
+    (forall h, (h mod S (mask (Conc.shared c))) mod nl = h mod nl) /\
+    (forall i t, tholder (Conc.trace c) i = Some t -> i < nl /\ spins (Conc.shared c) i = true) /\
+    (forall i t t', tholder (Conc.trace c) i = Some t -> tholder (Conc.trace c) i = Some t' -> t = t') /\
+    (forall t' c', Conc.step_cfg c t' = Some c' ->
+       forall i t, tholder (Conc.trace c) i = Some t -> t <> t' ->
+         mask (Conc.shared c') = mask (Conc.shared c) /\
+         forall b, b mod nl = i -> get_b (buckets (Conc.shared c')) b = get_b (buckets (Conc.shared c)) b).
+  Proof.
+    intros Hr. pose proof (Conc.reach_inv (init_ok ths) Hr) as Hok.
+    destruct (Conc.reach_Inv (init_ok ths) Hr) as (a & Hi).
+    split; [|split; [|split]].
+    - intros h. destruct (i_div Hi) as (e & He & Hd). rewrite Hd. apply stripe_of_bucket; auto.
+    - intros i t H. apply (i_hold Hi) in H. split; [eapply holds_lt; eauto|]. apply (i_spin Hi); [eapply holds_lt; eauto|eauto].
+    - intros i t t' H1 H2. congruence.
+    - intros t' c' Hs i t Ht Hne.
+      destruct (step_frame c t' c' Hok Hs) as (a1 & a2 & I1 & I2 & Hf).
+      apply (i_hold I1) in Ht.
+      assert (Hv : a_view a2 t = a_view a1 t) by (apply Hf; exact Hne).
+      assert (Ht2 : holds (lk a2 t) i) by (unfold lk; now rewrite Hv).
+      split.
+      + rewrite (i_mask I2 t i Ht2), (i_mask I1 t i Ht). now rewrite Hv.
+      + intros b Hb. subst i. rewrite (i_reg I2 t b Ht2), (i_reg I1 t b Ht). now rewrite Hv.
+  Qed.
+
 End Striping.
